@@ -717,8 +717,34 @@ fn scenario(out: &mut Shards, rng: &mut Rng, k: u16, shape: u8, n: usize, merges
                         && (x.is_empty() || q.iter().all(|&q| x.quantile(q).map(f64::to_bits) == y.quantile(q).map(f64::to_bits)));
                     (upd_same, merge_same)
                 }));
+                // the same with values still pending in the buffer when the image is written: the image must
+                // describe the digest as serialize() leaves it (writing twice gives the same bytes), and the
+                // decoded copy and the original stay identical under the same long continuation
+                let r2 = catch(std::panic::AssertUnwindSafe(|| {
+                    let mut x = ds[a].d.clone();
+                    for i in 0..7 {
+                        x.update(gen_value(rng, shape, i, 7));
+                    }
+                    let b1 = x.serialize();
+                    let b2 = x.serialize();
+                    let mut y = TDigestMut::deserialize(&b1, false).expect("own image");
+                    let cn = 45 * k as usize + 300;
+                    for i in 0..cn {
+                        let v = gen_value(rng, shape, i, cn);
+                        x.update(v);
+                        y.update(v);
+                    }
+                    (b1 == b2, x.serialize() == y.serialize())
+                }));
+                let (idem, pend_same) = match r2 {
+                    Ok(t) => t,
+                    Err(e) => {
+                        out.ev(json!({"op":"Panic","in":"continuation","key":e.split(": ").next().unwrap_or(""),"msg":e}));
+                        return;
+                    }
+                };
                 match r {
-                    Ok((u, m)) => out.ev(json!({"op":"DCont","id":a,"copy":id_s,"upd_same":u,"merge_same":m})),
+                    Ok((u, m)) => out.ev(json!({"op":"DCont","id":a,"copy":id_s,"upd_same":u && idem && pend_same,"merge_same":m,"idem":idem,"pend_same":pend_same})),
                     Err(e) => {
                         out.ev(json!({"op":"Panic","in":"continuation","key":e.split(": ").next().unwrap_or(""),"msg":e}));
                         return;
